@@ -155,6 +155,15 @@ var allPatterns = []string{"s0", "s29", "s30", "s359", "s0-29", "s0-30", "s0-359
 //	k>=3: alternating position / neighbour family, slots {k, 359-k}
 func batchPlan(c *Case, k int) (famStart int64, slots []int) {
 	pat := slotPatterns[c.Slots]
+	if c.Conc > 0 {
+		// part conc: every F step writes one batch into each of the first Conc hours of the position's day
+		day := c.Pos.start() - int64(c.Pos.H)*msHour
+		round := k / c.Conc
+		if round == 0 {
+			return day + int64(k%c.Conc)*msHour, pat
+		}
+		return day + int64(k%c.Conc)*msHour, uniq([]int{pat[0], round, 359 - round})
+	}
 	switch {
 	case k == 0:
 		return c.Pos.start(), pat
